@@ -8,6 +8,7 @@
    regenerated from the source (Gen/GenRuntimeState.v). *)
 From Coq Require Import List NArith Bool Arith Permutation Lia.
 From Pika Require Import Base.Conc Gen.GenRuntimeState Model.SuspendResume Proofs.SuspendResumeProofs Proofs.SuspendResumeValidated Proofs.SuspendResumeStutter Proofs.SuspendResumeBlocked.
+From Pika Require Import Model.SuspendResumeHP Proofs.SuspendResumeHPProofs.
 Import ListNotations.
 
 (* a task is executed at most once, whatever suspend/resume calls are interleaved with its life *)
@@ -270,3 +271,76 @@ Example C19_sleep_ignores_blocked_tasks_example :
   let r := wrun c (repeat (false, 0) 7) 1 (with_blocked g 3) WTop in
   snd r = WWaiting /\ st (fst r) 1 = g_sleep_store /\ live (fst r) = 3 /\ st (fst r) 0 = rs_running.
 Proof. vm_compute. repeat split. Qed.
+(* ======== round w11c: what the model above leaves out (Model/SuspendResumeHP.v) ========
+
+   ---- max_thread_count of add_new_always, min_tasks_to_steal_staged, the idle-loop threshold before staged tasks are stolen ----
+   each makes one conversion step (own staged, a victim's staged, the low-priority staged tasks) do nothing although the queue
+   mutex was free; [worker_step_lim] adds them as oracle-chosen refusals (add_new_always only while the destination's pending part
+   is not empty).  Every such step is a step of the model above with the contention bit set: all theorems quantified over every
+   schedule and oracle hold with the limits, with NO new hypothesis.  ([enabled], hence [stuck], does not depend on the oracle;
+   that a threshold is not refused for ever is the same fairness the try_lock bit already needs.) *)
+Theorem C19_limits_simulated : forall c o lo w g pc, exists o', worker_step_lim c o lo w g pc = worker_step c o' w g pc.
+Proof. exact lim_simulated. Qed.
+Print Assumptions C19_limits_simulated.
+
+Theorem C19_limit_refusal_has_pending : forall c o lo w g r,
+  worker_step_lim c o lo w g (WAdd r) <> worker_step c o w g (WAdd r) -> nonempty (qof w (qs g)) = true.
+Proof. exact lim_refusal_has_pending. Qed.
+Print Assumptions C19_limit_refusal_has_pending.
+
+(* ---- separate high-priority queues: nhp <= nw queues, queue index [hq c i] for worker i < nhp ----
+   a layer over worker_step / client_step (HPopH, HStealH, the idle branch counting the own high-priority queue; a high-priority
+   submission is pushed on the PENDING part of hq (i mod nhp), i the worker validated and locked by select_active_pu).
+   Conservation holds as before, for every nhp, program, schedule: *)
+Theorem C19_hp_no_dup_across_suspend : forall c nhp progs high sched,
+  NoDup (map fst (executed (fst (hp_run c nhp progs high sched)))).
+Proof. exact hp_no_dup. Qed.
+Print Assumptions C19_hp_no_dup_across_suspend.
+
+Theorem C19_hp_no_task_lost : forall c nhp progs high sched tk,
+  let g := fst (hp_run c nhp progs high sched) in
+  (In tk (submitted g) -> In tk (map fst (executed g)) \/ In tk (map snd (heldl g)) \/ In tk (map snd (qs g)) \/ In tk (map snd (sq g))) /\
+  (In tk (map fst (executed g)) -> In tk (submitted g)).
+Proof. exact hp_no_task_lost. Qed.
+Print Assumptions C19_hp_no_task_lost.
+
+(* workers WITHOUT a high-priority queue (w >= nhp) never take anything out of a high-priority queue: from a state whose only
+   queued tasks sit in high-priority queues, no schedule of such workers and of finished clients executes anything, for ever *)
+Theorem C19_hp_workers_without_hp_queue : forall c nhp (sched : list (nat * oracle)) g0 (cf : gst * locals hlstate),
+  (forall so, In so sched -> nhp <= fst so) -> HPinv c nhp g0 (fst cf) (snd cf) ->
+  HPinv c nhp g0 (fst (run (hp_tstep c nhp) sched cf)) (snd (run (hp_tstep c nhp) sched cf)).
+Proof. exact hp_stranded_run. Qed.
+Print Assumptions C19_hp_workers_without_hp_queue.
+
+(* NEW FINDING (C19:high_priority_task_stranded_on_suspended_pu): 2 workers, ONE high-priority queue (--pika:high-priority-threads=1),
+   elasticity and stealing on.  suspend_processing_unit(0) returns without error; a high-priority task submitted with hint 1 is
+   validated against worker 1 (running, PU lock 1 held) and pushed on high_priority_queues_[1 % 1] = worker 0's, who sleeps.
+   Worker 1 is running, stealing is enabled — and whatever worker 1 does, for ever, the task is not executed: the statement of
+   C19_no_task_stranded_stealing (one running worker + stealing => nothing pending) fails for high-priority tasks when nhp < nw.
+   Replayed on the runtime by harness/c19_hp.cpp (0 of n tasks run until PU 0 is resumed). *)
+Theorem C19_hp_stranded_refuted :
+  let cf := hp_run hp_cfg 1 hp_progs hp_high hp_sched in
+  stealing hp_cfg = true /\ st (fst cf) 1 = rs_running /\ st (fst cf) 0 = rs_sleeping /\
+  calls (fst cf) = [(2, KSuspendPU, false)] /\
+  In (2, 0) (submitted (fst cf)) /\ qs (fst cf) = [(hq hp_cfg 0, (2, 0))] /\
+  forall sched', (forall so, In so sched' -> 1 <= fst so) ->
+    let g' := fst (run (hp_tstep hp_cfg 1) sched' cf) in
+    executed g' = [] /\ qs g' = [(hq hp_cfg 0, (2, 0))].
+Proof. exact hp_stranded_refuted. Qed.
+Print Assumptions C19_hp_stranded_refuted.
+
+(* the hypothesis under which the merged model (high-priority queue of worker i = its normal queue) has the right eligibility:
+   nhp = nw (the default): the queue chosen is the validated worker's own; otherwise it is another worker's *)
+Theorem C19_hp_default_target_is_validated_worker : forall i nhp, i < nhp -> Nat.modulo i nhp = i.
+Proof. exact hp_default_target. Qed.
+Print Assumptions C19_hp_default_target_is_validated_worker.
+
+Theorem C19_hp_target_is_foreign_queue : forall c nhp i, 0 < nhp -> nhp <= i -> hq c (Nat.modulo i nhp) <> hq c i.
+Proof. exact hp_target_foreign. Qed.
+Print Assumptions C19_hp_target_is_foreign_queue.
+
+(* with nhp = nw the same program runs the task: worker 1 pops its own high-priority queue *)
+Example C19_example_hp_default :
+  let cf := hp_run hp_cfg 2 hp_progs hp_high (hp_sched ++ repeat (1, o0) 4) in
+  map fst (executed (fst cf)) = [(2, 0)] /\ qs (fst cf) = [] /\ st (fst cf) 0 = rs_sleeping.
+Proof. vm_compute. repeat split; reflexivity. Qed.
